@@ -205,6 +205,12 @@ def rule_r3(rep, program: Program):
     if star is None:
         msg = "ChainState.copy: **variables argument not found"
         raise AnalysisError(msg)
+    if isinstance(star, ast.Name):
+        # the table may be built before the call: by a loop (-> comprehension) or a single assignment
+        from ..model import loops_to_comprehensions, single_assignment_locals
+
+        built = loops_to_comprehensions(f.node.body)
+        star = built.get(star.id) or single_assignment_locals(f.node).get(star.id, star)
     r.inst({"site": "ChainState.copy:variables", "expr": norm(star)})
     ok = None
     if isinstance(star, ast.DictComp) and len(star.generators) == 1 and norm(star.generators[0].iter) == "self._variables.items()":
